@@ -40,4 +40,4 @@ rm -f /tmp/as.$$.*
 if [ $a -eq 0 ] && [ $b -eq 0 ] && [ $c -ne 0 ]; then echo CONFIRMED; else echo NOT-CONFIRMED; exit 1; fi
 cd /verif
 cleanup; trap - EXIT
-tools/tryseed.sh $SEED/patch.diff ${CHECKS:-}
+[ -n "${NOTRY:-}" ] || tools/tryseed.sh $SEED/patch.diff ${CHECKS:-}
